@@ -31,3 +31,93 @@ package electricpb
 //@   ensures [size] err == nil ==> 1 <= pageSize && pageSize <= 1000 && (old(request.PageSize) == 0 ==> pageSize == 50) && upperBound - nextIndex <= pageSize && (upperBound == len(all) || upperBound - nextIndex == pageSize)
 //@   ensures [last-page] err == nil && nextIndex + pageSize > len(all) ==> resp.NextPageToken == ""
 //@   replay ElectricListModes(request.PageSize)
+//@
+//@ // ---- the electric model's mode rules (C19, the clauses that do not depend on what a stored message contains) ----
+//@ property C19
+//@ pure func modeOf(m) = cast(m, *traits.ElectricMode)
+//@ pure func isMode(m) = istype(m, *traits.ElectricMode) && cast(m, *traits.ElectricMode) != nil
+//@ // the model as built by NewModel: resources present, the active-mode value and every stored mode are ElectricModes
+//@ pure func wfModel(m) = m != nil && m.activeMode != nil && m.activeMode.config != nil && !isnil(m.activeMode.config.clock) && isMode(m.activeMode.value) &&
+//@ |   m.modes != nil && m.modes.config != nil && !isnil(m.modes.config.clock) && !isnil(m.modes.config.rng) && m.modes.byId != nil && !isnil(m.clock) &&
+//@ |   (forall id string :: has(m.modes.byId, id) ==> m.modes.byId[id] != nil && isMode(m.modes.byId[id].body) && ref(m.modes.byId[id].body) != ref(m.activeMode.value))
+//@
+//@ // the normal mode is the first listed mode flagged normal; none flagged means none found
+//@ func (*Model).normalMode() (res, ok)
+//@   option locks caller
+//@   requires wfModel(recv) && held(recv.mu)
+//@   ensures [found] ok ==> res != nil && res.Normal
+//@   ensures [listed] ok ==> (exists j int :: 0 <= j && j < len(modes) && isMode(modes[j]) && modeOf(modes[j]) == res)
+//@   ensures [none] !ok ==> res == nil && (forall j int :: 0 <= j && j < len(modes) ==> !modeOf(modes[j]).Normal)
+//@   loop 0 (k):
+//@     invariant 0 <= k && k <= len(modes)
+//@     invariant forall j int :: 0 <= j && j < k ==> !modeOf(modes[j]).Normal
+//@     invariant forall j int :: 0 <= j && j < len(modes) ==> isMode(modes[j])
+//@
+//@ // the active mode is never deleted: the id is compared with the active id read in THIS critical section, and nothing is
+//@ // removed from the collection otherwise; what the collection's Delete decides is what the caller gets
+//@ func (*Model).deleteMode(id, opts) (err)
+//@   option locks caller
+//@   requires wfModel(recv) && heldW(recv.mu)
+//@   track Get
+//@   track Delete
+//@   ensures [active-read] calls(Get) == old(calls(Get)) + 1 && lastheldW(Get, recv.mu)
+//@   ensures [active-refused] modeOf(lastcall(Get)).Id == id ==> err != nil && calls(Delete) == old(calls(Delete))
+//@   ensures [delete-verdict] modeOf(lastcall(Get)).Id != id ==> calls(Delete) == old(calls(Delete)) + 1 && (err == nil) == (lastcall(Delete, 1) == nil)
+//@   replay [delete-verdict] ElectricDeleteAllowMissing()
+//@
+//@ func (*Model).DeleteMode(id, opts) (err)
+//@   requires wfModel(recv)
+//@   track deleteMode
+//@   ensures [under-lock] calls(deleteMode) == old(calls(deleteMode)) + 1 && lastheldW(deleteMode, recv.mu) && err == lastcall(deleteMode) && !held(recv.mu)
+//@
+//@ // switching to a different mode stamps its start time with the model clock; re-selecting the same mode does not
+//@ func (*Model).changeActiveMode$1(o, n)
+//@   requires isMode(o) && isMode(n) && modeOf(o) != modeOf(n) && m != nil && !isnil(m.clock)
+//@   ensures [stamped] old(modeOf(o).Id) != old(modeOf(n).Id) ==> modeOf(n).StartTime != nil && fresh(modeOf(n).StartTime)
+//@   ensures [kept] old(modeOf(o).Id) == old(modeOf(n).Id) ==> modeOf(n).StartTime == old(modeOf(n).StartTime)
+//@   ensures [id-kept] modeOf(n).Id == old(modeOf(n).Id) && modeOf(o).Id == old(modeOf(o).Id)
+//@
+//@ // only a mode that exists can become active
+//@ func (*Model).changeActiveMode(id) (res, err)
+//@   option locks caller
+//@   requires wfModel(recv) && heldW(recv.mu)
+//@   track Set
+//@   ensures [unknown] !old(has(recv.modes.byId, keyOfModes(recv, id))) ==> err != nil && res == nil && calls(Set) == old(calls(Set))
+//@   ensures [known] old(has(recv.modes.byId, keyOfModes(recv, id))) ==> calls(Set) == old(calls(Set)) + 1
+//@ pure func keyOfModes(m, id) = m.modes.config.idInterceptor == nil ? id : m.modes.config.idInterceptor(id)
+//@
+//@ func (*Model).SetActiveMode(mode) (err)
+//@   requires wfModel(recv) && mode != nil
+//@   track Set
+//@   ensures [unknown] !old(has(recv.modes.byId, keyOfModes(recv, mode.Id))) ==> err != nil && calls(Set) == old(calls(Set))
+//@   ensures [unlocked] !held(recv.mu)
+//@
+//@ // clearing the active mode selects the normal mode, and fails when there is none
+//@ func (*Model).ChangeToNormalMode() (res, err)
+//@   requires wfModel(recv)
+//@   track changeActiveMode
+//@   track normalMode
+//@   ensures [none] !lastcall(normalMode, 1) ==> err != nil && res == nil && calls(changeActiveMode) == old(calls(changeActiveMode))
+//@   // (looked up and switched to in one critical section)
+//@   ensures [selects-normal] lastcall(normalMode, 1) ==> calls(changeActiveMode) == old(calls(changeActiveMode)) + 1 &&
+//@   |   lastheldW(changeActiveMode, recv.mu) && lastheldW(normalMode, recv.mu) && lastgen(changeActiveMode, recv.mu) == lastgen(normalMode, recv.mu)
+//@   ensures [unlocked] !held(recv.mu)
+//@
+//@ // a second normal mode is refused before anything is added
+//@ func (*Model).createOrAddMode(mode) (res, err)
+//@   option locks caller
+//@   requires wfModel(recv) && heldW(recv.mu) && mode != nil
+//@   track Add
+//@   track normalMode
+//@   ensures [second-normal-refused] old(mode.Normal) && calls(normalMode) > old(calls(normalMode)) && lastcall(normalMode, 1) ==> err != nil && res == nil && calls(Add) == old(calls(Add))
+//@   ensures [normal-checked] old(mode.Normal) ==> calls(normalMode) == old(calls(normalMode)) + 1
+//@
+//@ // invariant 1 (at most one normal mode) across an update: a successful update that leaves the mode normal must not leave a
+//@ // second normal mode behind.  updateMode has no such check (createOrAddMode has); recorded as a known finding with its
+//@ // replay, not provable either way through the abstract message contents of Collection.Update.
+//@ pure func atMostOneNormal(m) = forall a string, b string :: has(m.modes.byId, a) && has(m.modes.byId, b) && modeOf(m.modes.byId[a].body).Normal && modeOf(m.modes.byId[b].body).Normal ==> a == b
+//@ func (*Model).updateMode(mode, opts) (res, err)
+//@   option locks caller
+//@   requires wfModel(recv) && heldW(recv.mu) && mode != nil && atMostOneNormal(recv)
+//@   ensures [normal-unique] err == nil ==> atMostOneNormal(recv)
+//@   replay [normal-unique] ElectricUpdateSecondNormal()
